@@ -300,13 +300,13 @@ def raii_guards(R, body, name, end_indent="    "):
     panic and is a precondition violation), later uses of G in the same scope are renamed to G_gN,
     `drop(G);` becomes `heap.release(&H.ptr, G_gN);`, and the releases that Rust performs implicitly — at a
     `return;` and at the closing brace of the block that declared the guard, youngest first — are written
-    out.  Only straight-line bodies with `if` blocks are supported; anything else is a lost anchor."""
+    out.  Only loop-free bodies (`if`/`match` blocks) are supported; anything else is a lost anchor."""
     out, live, names, n = [], [], {}, 0     # live: [dict(g, owner, depth)], names: var -> current guard name
     depth = 0
     returned_at = None
     for line in body:
         code = _strip_strings(line)
-        if re.search(r"\b(while|for|loop|match)\b", code) or "borrow()" in code:
+        if re.search(r"\b(while|for|loop)\b", code) or "borrow()" in code:
             raise LostAnchor(f"{name}: X10 supports straight-line bodies only: {line.strip()!r}")
         ind = re.match(r"\s*", line).group(0)
         if code.strip().startswith("}"):
